@@ -17,7 +17,13 @@ Local Open Scope N_scope.
    && len(currentIP) == 5 && AcceptRemoteIP <= 4`, the loop `for i := 1; i <
    AcceptRemoteIP; i++ {...}`) and every statement touching the compiled
    pattern, regenerated from session.go on every run, are the ones
-   Model/AddrRe.v was written against. *)
+   Model/AddrRe.v was written against. The pattern literal and the statements
+   touching it are pinned as text; the two guards and the loop are listed as
+   "<translated: gen_ip_ok / gen_ip_loop (Gen/PureFnIP.v)>" when the translator
+   translated these very AST nodes: what they mean is then proved on every run
+   (Properties/C06P.v: C06P_ip_block), and only their presence and place are
+   pinned here. If the translation fails their source text is listed and this
+   pin fails. *)
 Theorem addr_pattern_pinned :
   addr_pattern = addr_pattern_v1 /\ addr_guards = addr_guards_v1 /\ addr_uses = addr_uses_v1.
 Proof. repeat split; reflexivity. Qed.
